@@ -116,6 +116,8 @@ Definition findHostSlow : list T :=
       TWr FHostTable; TRd FMacHostList; TWr FMacHostList;   (* :149-152 *)
       TRel LSess].
 
+Definition fFindIP0 : list T := [TAcq LSess MR; TRd FHostTable; TRel LSess].
+
 (* notification.go:50 sendNotification: check-then-act on len/cap, then send *)
 Definition sendNotification : list T := [TLenCap CNotify; TSend CNotify].
 
@@ -163,9 +165,10 @@ Definition template (o : op) : tmpl op :=
   | ParseSlow => simple (parseCounters ++ findHostSlow ++ [TRd FHostOnline] ++ onlineTransition)
   (* session.go:389 Notify with frame.Host set *)
   | Notify => simple notify
-  (* session.go:391-406 Notify for a DHCP frame without host: DHCPv4IPOffer, then findIP with NO lock *)
+  (* session.go:391-406 Notify for a DHCP frame without host: DHCPv4IPOffer, then FindIP (session read
+     lock; repaired by /repo 35be599, was findIP on the map with no lock) *)
   | NotifyDhcp =>
-      simple ([TAcq LSess MR; TRd FMACTable; TRd FMacIP4Offer; TRel LSess; TRd FHostTable] ++ notify)
+      simple ([TAcq LSess MR; TRd FMACTable; TRd FMacIP4Offer; TRel LSess] ++ fFindIP0 ++ notify)
   (* session.go:282-360 purge: GetHosts snapshot; per host a row read-locked inspection and (if stale)
      makeOffline; probe goroutine; deletions under the session write lock.
      (The source runs all inspections, spawns the probe, then all makeOffline calls; the per-row
@@ -217,8 +220,9 @@ Definition template (o : op) : tmpl op :=
   | ArpStartHunt => simple [TAcq LArp MW; TRd FArpHuntList; TWr FArpHuntList; TSpawn ArpSpoofLoop; TRel LArp]
   (* spoof.go:57 StopHunt *)
   | ArpStopHunt => simple [TAcq LArp MW; TRd FArpHuntList; TWr FArpHuntList; TRel LArp]
-  (* spoof.go:11 IsHunting -> findHuntByIP ranges over the map with NO lock *)
-  | ArpIsHunting => simple [TRd FArpHuntList]
+  (* spoof.go:11 IsHunting -> findHuntByIP ranges over the map under arpMutex (repaired by /repo 95679df,
+     was an unlocked map iteration) *)
+  | ArpIsHunting => simple [TAcq LArp MW; TRd FArpHuntList; TRel LArp]
   (* arp.go:72 PrintTable *)
   | ArpPrintTable => simple [TAcq LArp MW; TRd FArpHuntList; TRel LArp]
   (* spoof.go:78 spoofLoop, one iteration: membership under arpMutex, `closed` read with no lock,
